@@ -164,7 +164,7 @@ pub fn all() -> Vec<CheckDef> {
             id: "C06",
             run: c06::run,
             replay: c06::replay,
-            rule: "fault enumeration: for each generated history (memberships with ranks, user modes, operator, away, pending invitations) x EVERY cut point x 2 victims x EVERY end kind (QUIT, close at line boundary, close mid-line, close with unread output pending, half-close, invalid UTF-8, over-long line, KILL by an operator, two pipelined KILLs of the same nick, pong timeout in virtual time) plus several sessions closing in one step: the prefix is replayed in a fresh world, the session ended, and the survivors run the full probe battery (NAMES/WHO/WHOIS/MODE/TOPIC/LIST/LUSERS/ISON/USERHOST/WHOWAS), WALLOPS, an invited bystander's JOIN and a re-registration under the freed nick, all against the model; an evaluation = one (history, cut, victim, end kind); non-trivial = victim had a ranked membership or +w/+i/operator and the end kind is not QUIT; distinct by (end kind, victim feature vector, emptied-a-channel)",
+            rule: "fault enumeration: for each generated history (memberships with ranks, user modes, operator, away, pending invitations) x EVERY cut point x 2 victims x EVERY end kind (QUIT, close at line boundary, close mid-line, close with unread output pending, half-close, invalid UTF-8, over-long line, KILL by an operator, two pipelined KILLs of the same nick, pong timeout in virtual time, a last command / a QUIT arriving together with the close so that the answer cannot be written) plus several sessions closing in one step: the prefix is replayed in a fresh world, the session ended, and the survivors run the full probe battery (NAMES/WHO/WHOIS/MODE/TOPIC/LIST/LUSERS/ISON/USERHOST/WHOWAS), WALLOPS, an invited bystander's JOIN and a re-registration under the freed nick, all against the model; an evaluation = one (history, cut, victim, end kind); non-trivial = victim had a ranked membership or +w/+i/operator and the end kind is not QUIT; distinct by (end kind, victim feature vector, emptied-a-channel)",
             level: "fault_enumeration",
             assumptions: &["SIM engine: TCP RST cannot be produced on the in-memory transport (close = drop of the client half, half-close = shutdown of its write side)", "reference model on_close() = the clean-up rule of the statement", "keep-alive in virtual time with ping_timeout=50 s, pong_timeout=5 s"],
         },
